@@ -337,7 +337,7 @@ Proof.
 Qed.
 
 (* alter never panics and never hangs *)
-Lemma alter_total v p n : exists r, alter v p n = Ok r \/ exists k, alter v p n = Err k.
+Lemma alter_total v p n : (exists r, alter v p n = Ok r) \/ (exists k, alter v p n = Err k).
 Proof.
   unfold alter. destruct (loop v p n) as [r e]. destruct e; eauto.
 Qed.
@@ -354,7 +354,7 @@ Lemma alter_meets_spec v p n :
   conv_sane n = true -> spec_ok (CAlter v p n (alter_obs v p n)) = true.
 Proof.
   intro S. cbn [spec_ok]. unfold spec_alter, alter_obs. rewrite S. cbn [andb].
-  destruct (alter_total v p n) as (r & [H | (k & H)]); rewrite H; cbn.
+  destruct (alter_total v p n) as [(r & H) | (k & H)]; rewrite H; cbn.
   - apply alter_precise. exact H.
   - reflexivity.
 Qed.
@@ -410,7 +410,7 @@ Proof.
   - intro H. destruct (IH H) as (z & -> & I). eauto.
 Qed.
 
-Lemma nodup_cells_names vs x y c :
+Lemma nodup_cells_names (vs : list (bytes * nat)) x y c :
   NoDup (map snd vs) -> In (x, c) vs -> In (y, c) vs -> x = y.
 Proof.
   induction vs as [|[z d] vs IH]; cbn; intros ND I1 I2; [contradiction|].
@@ -451,7 +451,7 @@ Proof.
     + intros [H|H]; auto. destruct (IH H); auto.
 Qed.
 
-Lemma nodup_var_set x c vs :
+Lemma nodup_var_set x c (vs : list (bytes * nat)) :
   NoDup (map snd vs) -> ~ In c (map snd vs) -> NoDup (map snd (var_set x c vs)).
 Proof.
   induction vs as [|[z e] vs IH]; cbn; intros ND NI.
